@@ -10,12 +10,15 @@
 (* The specification does not predict tree or error for a mutant: the       *)
 (* requirement is totality and located diagnostics, which C01Trace.tla      *)
 (* evaluates on the recorded execution of each.                             *)
+(* MaxSteps = 1: exactly the single mutations (enumerated in full); with    *)
+(* MaxSteps > 1 mutations compose (a mutant is mutated again), explored by  *)
+(* seeded simulation: damage that needs two faults to show.                 *)
 (* Stride/Offset thin the replacements (quick tier: a seeded tenth) and,    *)
 (* five times less, the insertions; Stride = 1 takes everything.            *)
 (***************************************************************************)
 EXTENDS Naturals, Sequences, TLC, Json
 
-CONSTANTS Stride, Offset
+CONSTANTS Stride, Offset, MaxSteps
 
 Programs == <<
   <<"acl", "a", "{", "\"10.0.0.0\"", "/", "8", ";", "!", "\"10.1.0.0\"", "/", "16", ";", "\"::1\"", ";", "}">>,
@@ -38,22 +41,25 @@ Repl == <<"{", "}", "(", ")", ";", ",", ":", ".", "=", "==", "!", "~", "+", "-",
           "<<", ">>", "if", "else", "elseif", "sub", "acl", "backend", "table", "director", "set", "unset", "call",
           "return", "error", "restart", "switch", "case", "default", "break", "fallthrough", "include", "import",
           "declare", "goto", "pragma", "C!", "x", "1", "1.5", "2s", "\"s\"", "{\"ls\"}", "{\"unterminated",
-          "\"unterminated", "/* unterminated", "# c", "NUL", "XFF", "U2", "\n">>
+          "\"unterminated", "/* unterminated", "# c", "NUL", "XFF", "U2", "\n",
+          \* strings whose escapes are complete, incomplete, invalid or NUL (parser/string_escape.go)
+          "\"%41\"", "\"%\"", "\"%u{\"", "\"%e2%82\"", "\"%u00\"", "\"a%00b\"", "\"%u{110000}\"", "\"%ud800\"", "{\"%41\"}">>
 Ins == <<"pragma", "C!", "{\"unterminated", "\"unterminated", "/* unterminated", "NUL", "# c">>
 
-VARIABLES p, mut, at, with, toks
-vars == <<p, mut, at, with, toks>>
-Init == p = 0 /\ mut = "none" /\ at = 0 /\ with = "" /\ toks = <<>>
+VARIABLES p, mut, at, with, toks, steps
+vars == <<p, mut, at, with, toks, steps>>
+Init == p = 0 /\ mut = "none" /\ at = 0 /\ with = "" /\ toks = <<>> /\ steps = 0
 Prog(q) == Programs[q]
-Pick(q)  == p = 0 /\ p' = q /\ mut' = "base" /\ at' = 0 /\ with' = "" /\ toks' = Prog(q)
-Truncate(i) == mut = "base" /\ mut' = "truncate" /\ at' = i /\ toks' = SubSeq(toks, 1, i) /\ UNCHANGED <<p, with>>
-Delete(i)   == mut = "base" /\ mut' = "delete" /\ at' = i
+Pick(q)  == p = 0 /\ p' = q /\ mut' = "base" /\ at' = 0 /\ with' = "" /\ toks' = Prog(q) /\ steps' = 0
+More == mut # "none" /\ steps < MaxSteps
+Truncate(i) == More /\ mut' = "truncate" /\ at' = i /\ toks' = SubSeq(toks, 1, i) /\ steps' = steps + 1 /\ UNCHANGED <<p, with>>
+Delete(i)   == More /\ mut' = "delete" /\ at' = i /\ steps' = steps + 1
                /\ toks' = SubSeq(toks, 1, i - 1) \o SubSeq(toks, i + 1, Len(toks)) /\ UNCHANGED <<p, with>>
-Replace(i, r) == mut = "base" /\ (i * Len(Repl) + r) % Stride = Offset /\ Repl[r] # toks[i]
-                 /\ mut' = "replace" /\ at' = i /\ with' = Repl[r]
+Replace(i, r) == More /\ (i * Len(Repl) + r) % Stride = Offset /\ Repl[r] # toks[i]
+                 /\ mut' = "replace" /\ at' = i /\ with' = Repl[r] /\ steps' = steps + 1
                  /\ toks' = [toks EXCEPT ![i] = Repl[r]] /\ UNCHANGED p
-Insert(i, r)  == mut = "base" /\ (i + r) % ((Stride + 4) \div 5) = Offset % ((Stride + 4) \div 5)
-                 /\ mut' = "insert" /\ at' = i /\ with' = Ins[r]
+Insert(i, r)  == More /\ (i + r) % ((Stride + 4) \div 5) = Offset % ((Stride + 4) \div 5)
+                 /\ mut' = "insert" /\ at' = i /\ with' = Ins[r] /\ steps' = steps + 1
                  /\ toks' = SubSeq(toks, 1, i - 1) \o <<Ins[r]>> \o SubSeq(toks, i, Len(toks)) /\ UNCHANGED p
 Next == \/ \E q \in 1..Len(Programs) : Pick(q)
         \/ \E i \in 0..(Len(toks) - 1) : Truncate(i)
@@ -62,5 +68,5 @@ Next == \/ \E q \in 1..Len(Programs) : Pick(q)
         \/ \E i \in 1..(Len(toks) + 1), r \in 1..Len(Ins) : Insert(i, r)
 Spec == Init /\ [][Next]_vars
 Emit == mut # "none" =>
-          PrintT(<<"BEHAVIOUR", ToJson([prog |-> p, mut |-> mut, at |-> at, with |-> with, toks |-> toks])>>)
+          PrintT(<<"BEHAVIOUR", ToJson([prog |-> p, mut |-> mut, at |-> at, with |-> with, steps |-> steps, toks |-> toks])>>)
 =============================================================================
